@@ -38,7 +38,7 @@ func parseU64s(s string) []uint64 {
 	for _, p := range strings.Split(s, ",") {
 		v, err := strconv.ParseUint(p, 10, 64)
 		if err != nil {
-			panic("bad u64 list")
+			panic(badOp{})
 		}
 		out = append(out, v)
 	}
@@ -70,7 +70,7 @@ func parseBools(s string) []bool {
 			out[i] = true
 		case '0':
 		default:
-			panic("bad bool list")
+			panic(badOp{})
 		}
 	}
 	return out
@@ -94,9 +94,13 @@ func parseStrs(s string) []string {
 	var out []string
 	for _, p := range strings.Split(s, ",") {
 		if len(p) == 0 || p[0] != 's' {
-			panic("bad string list")
+			panic(badOp{})
 		}
-		out = append(out, string(h.MustUnHex(orDash(p[1:]))))
+		b, err := h.UnHex(orDash(p[1:]))
+		if err != nil {
+			panic(badOp{})
+		}
+		out = append(out, string(b))
 	}
 	return out
 }
@@ -120,11 +124,17 @@ func eqU(a, b []uint64) bool {
 	return true
 }
 
-// guard runs f; a panic becomes the answer "panic"
+type badOp struct{}
+
+// guard runs f; a panic becomes the answer "panic" (an ill-formed operand: "bad-op")
 func guard(f func() string) (s string) {
 	defer func() {
 		if r := recover(); r != nil {
-			s = "panic"
+			if _, ok := r.(badOp); ok {
+				s = "bad-op"
+			} else {
+				s = "panic"
+			}
 		}
 	}()
 	return f()
